@@ -592,6 +592,19 @@ fn sweep(cfg: &Cfg, rep: &Reporter, ev_: &mut Evidence, targets: &[Target]) {
                                 return false;
                             }
                         }
+                        // the parsing module's variables are results too: a buffer the word computed (e.g. `output`
+                        // after emit) does not take over the tags of an argument
+                        if !tg.name.starts_with("template:") {
+                            for (vi, v1) in o1.vars.iter().enumerate() {
+                                let changed = o0.vars.get(vi).map(|v0| render(v0) != render(v1)).unwrap_or(false);
+                                if changed && matches!(v1, Cell::WithTag(_)) && VARS_OBSERVED[vi] == "output" {
+                                    rep.report_w(&format!("tag-kept:{}:variable-{}", tg.name, VARS_OBSERVED[vi]), wt(weight, &program(&vals)), || {
+                                        jo(vec![("kind", js("sweep")), ("what", js("a buffer computed by the word carries the tags of an argument")), ("tagged_program", js(program(&vals))), ("tagged", outcome_json(&o1))])
+                                    });
+                                    return false;
+                                }
+                            }
+                        }
                         let leaked: Vec<&String> = found.iter().filter(|f| !allowed.contains(*f)).collect();
                         if !leaked.is_empty() {
                             rep.report_w(&format!("tag-leak:{}", tg.name), wt(weight, &program(&vals)), || {
